@@ -512,11 +512,8 @@ func snapshot(native *native.NativeService, number uint64, hash ecommon.Hash, ta
 		return
 	}
 
-	if lastSeenHeight > 0 {
-		return
-	}
-
-	// try to search enough recent
+	// try to search enough recent (a sealing recorded for an old checkpoint or vote header
+	// must not hide a more recent one)
 	toSearch := len(snap.Signers) / 2
 	for i := 0; i < toSearch; i++ {
 		headerWS, err = getHeader(native, startHash, ctx.ChainID)
